@@ -550,6 +550,11 @@ func (c *Ctx) checkGuard(rule string, g guardSpec) {
 					return
 				}
 				nAcq++
+				// a helper that runs with the lock held (documented or inferred) and lets go of it for a while hands it
+				// back to its caller: re-acquiring before returning is its contract, not a leak
+				if inferred[declaredParent(fn)] != lockNone || (fn.Signature.Recv() != nil && helper[fn.Name()]) {
+					return
+				}
 				// acquired while this very function already holds it on every path here: sync mutexes are not re-entrant
 				if lf, ok := locks[fn]; ok && lf[in][lockID] != lockNone {
 					leaks = append(leaks, shortName(fn)+" ("+p.InstrPos(in)+": acquired while already held, which blocks forever)")
